@@ -28,7 +28,7 @@ ASSUMPTIONS = [
 
 def cases(rng, tier):
     return S.gen_cases(rng, tier, 90 if tier == "quick" else 1200) + S.default_cases(random.Random(str(rng.getstate()[1][0])), tier, 150 if tier == "quick" else 2500) + S.crosstype_cases() \
-        + X.directed_ctor_cases()
+        + X.directed_ctor_cases() + X.decimal_cases()
 
 
 def search_cases(rng, tier):
@@ -36,10 +36,16 @@ def search_cases(rng, tier):
 
 
 def _x(case):
-    return case.get("suite") == "extras-ctor"
+    return case.get("suite") in ("extras-ctor", "extras-decimal")
+
+
+def _dec(case):
+    return case.get("suite") == "extras-decimal"
 
 
 def run_impl(case):
+    if _dec(case):
+        return X.run_decimal(case)
     return X.run_ctor(case) if _x(case) else S.run_impl(case)
 
 
@@ -48,6 +54,8 @@ def line(case, impl):
 
 
 def tags(case, impl, model):
+    if _dec(case):
+        return ["stream:extras-decimal"] + [f"decimal:{p['probe']}:{p['ctor']}" for p in impl.get("probes", [])]
     if _x(case):
         return ["stream:extras-ctor", "extras:" + impl.get("out", "skipped")] + (["extras-exc:" + impl["exc"]] if "exc" in impl else [])
     return S.tags(case, impl, model)
@@ -58,10 +66,14 @@ def nontrivial(case):
 
 
 def describe(case, impl, model):
+    if _dec(case):
+        return {"decimal": case, "probes": impl.get("probes")}
     return {"extras": [case["leaf"], case["wrap"]], "value": impl.get("value"), "out": impl.get("out"), "exc": impl.get("exc")} if _x(case) else S.describe(case, impl, model)
 
 
 def judge(case, impl, model):
+    if _dec(case):
+        return None, ([] if "skip" in impl else X.judge_decimal_ctor(case, impl))
     if _x(case):
         return None, X.judge_ctor(case, impl)
     msg = S.correspondence(case, impl, model)
